@@ -2,6 +2,7 @@
 // it, and slots are reused by later producers; every such pair of plain accesses must be ordered by
 // the declared memory orders of the slot sequence numbers / head / tail (no data race).
 // VF_KIND 0: one producer (3 emplaces: slot 0 is reused), main pops once while it runs, then 2 pops
+// VF_KIND 2: publication only: one producer (1 emplace), main 1 pop concurrently + 1 pop after join
 // VF_KIND 1: two producers (1 emplace each), one consumer thread (2 pops), drain by main
 #include <dispenso/mpmc_ring_buffer.h>
 #include "vf.h"
@@ -24,7 +25,17 @@ static void warm() {
   warm_probe(R.dataPtr(R.slots_[1]));
 }
 
-#if VF_KIND == 0
+#if VF_KIND == 2
+static void producer(void*) { R.try_emplace(1); }
+extern "C" void vf_main() {
+  warm();
+  vf_spawn(producer, nullptr);
+  Probe out{Probe::Private{}};
+  R.try_pop(out);
+  vf_join_all();
+  R.try_pop(out);
+}
+#elif VF_KIND == 0
 static void producer(void*) {
   R.try_emplace(1);
   R.try_emplace(2);
